@@ -183,6 +183,44 @@ where T: Decodable + Encodable + Default + Send + Sync {
     ctx.imp.push(out);
 }
 
+/// decoder entry points that have no Lean model: the C15 oracles (no panic, no out-of-proportion
+/// allocation) of `real_dec` still apply; nothing is sent to the model
+fn feed_real_only<T>(rep: &mut Report, ty: &str, bytes: &[u8], kind: &str)
+where T: Decodable + Encodable + Default + Send + Sync {
+    let op = format!("codec dec {} {}", ty, if bytes.is_empty() { "-".to_string() } else { hex::encode(bytes) });
+    let out = real_dec::<T>(ty, bytes, rep, &op);
+    rep.count(&format!("{}:{}:{}", ty, kind, out.split(' ').next().unwrap()));
+    rep.case(&format!("{ty}:{kind}:{}", hex::encode(&sha256(bytes)[..6])), kind != "random");
+}
+
+fn exercise_real_only<T>(rep: &mut Report, rng: &mut Rng, ty: &str, enc: &[u8], thorough: bool)
+where T: Decodable + Encodable + Default + Send + Sync {
+    feed_real_only::<T>(rep, ty, enc, "valid");
+    let step = if enc.len() > 96 && !thorough { enc.len() / 48 } else { 1 };
+    let mut i = 0;
+    while i < enc.len() { feed_real_only::<T>(rep, ty, &enc[..i], "truncated"); i += step.max(1); }
+    for _ in 0..(if thorough { 24 } else { 8 }) {
+        if enc.is_empty() { break; }
+        let mut m = enc.to_vec();
+        let p = rng.below(m.len() as u64) as usize;
+        m[p] ^= 1 << rng.below(8);
+        feed_real_only::<T>(rep, ty, &m, "bitflip");
+    }
+    for _ in 0..(if thorough { 16 } else { 6 }) {
+        if enc.len() < 4 { break; }
+        let mut m = enc.to_vec();
+        let p = rng.below((m.len() - 3) as u64) as usize;
+        let val: u32 = *rng.pick(&[0xffff_ffffu32, 0x0100_0001, 0x0100_0000, 0x00ff_ffff, 0x8000_0000, 0, 1]);
+        m[p..p + 4].copy_from_slice(&val.to_le_bytes());
+        feed_real_only::<T>(rep, ty, &m, "length-edit");
+    }
+    if enc.len() > 8 {
+        let a = rng.below(enc.len() as u64) as usize; let b = rng.below(enc.len() as u64) as usize;
+        let mut m = enc[..a].to_vec(); m.extend_from_slice(&enc[b..]);
+        feed_real_only::<T>(rep, ty, &m, "splice");
+    }
+}
+
 /// valid encoding + mutation streams for one value
 fn exercise<T>(ctx: &mut Ctx, rep: &mut Report, rng: &mut Rng, ty: &str, v: &T, thorough: bool)
 where T: Decodable + Encodable + Default + PartialEq + std::fmt::Debug + Send + Sync {
@@ -320,6 +358,42 @@ pub fn run(cli: &Cli) {
         let l = rand_len(&mut rng);
         let rec = EventRecord::new(rand_time(&mut rng), CommitHash(rand_hash(&mut rng)), CommitHash(rand_hash(&mut rng)), rand_bytes(&mut rng, l));
         exercise(&mut ctx, &mut rep, &mut rng, "EventRecord", &rec, thorough);
+        // secret kinds (real decoders only)
+        {
+            use sos_vault::secret::{Secret, SecretMeta, SecretRow};
+            let kind = (k as usize) % crate::secrets::KINDS;
+            let (meta, secret) = crate::secrets::secret_of_kind(&mut rng, kind, 2);
+            let row = SecretRow::new(SecretId::from(rand_uuid(&mut rng)), meta.clone(), secret.clone());
+            let rt_ = rt();
+            let (e_meta, e_secret, e_row, back) = rt_.block_on(async {
+                let a = sos_core::encode(&meta).await.expect("encode meta");
+                let b = sos_core::encode(&secret).await.expect("encode secret");
+                let c = sos_core::encode(&row).await.expect("encode row");
+                let bm: Result<SecretMeta, _> = sos_core::decode(&a).await;
+                let bs: Result<Secret, _> = sos_core::decode(&b).await;
+                let br: Result<SecretRow, _> = sos_core::decode(&c).await;
+                (a, b, c, (bm, bs, br))
+            });
+            let kname = format!("{:?}", secret.kind());
+            let canon_meta = |m: &SecretMeta| serde_json::to_value(m).map(|mut v| { let mut w = json!({"m": v.take()}); sort_sets(&mut w); w.to_string() }).unwrap_or_default();
+            match back.0 { Ok(m2) if canon_meta(&m2) == canon_meta(&meta) => {}, Ok(_) => rep.spec_fail("roundtrip-differs:SecretMeta", json!({"bytes": hex::encode(&e_meta)}), "decode(encode v) != v"), Err(e) => rep.spec_fail("roundtrip-error:SecretMeta", json!({"bytes": hex::encode(&e_meta)}), &e.to_string()) }
+            // semantic comparison through the serde form (sorted maps): `PartialEq for Secret` zips two HashMap iterators
+            fn sort_sets(v: &mut serde_json::Value) {
+                match v {
+                    serde_json::Value::Object(m) => { for (k, x) in m.iter_mut() { if k == "tags" { if let serde_json::Value::Array(a) = x { a.sort_by_key(|e| e.to_string()); } } sort_sets(x); } }
+                    serde_json::Value::Array(a) => { for x in a.iter_mut() { sort_sets(x); } }
+                    _ => {}
+                }
+            }
+            let canon = |s: &Secret| serde_json::to_value(s).map(|mut v| { sort_sets(&mut v); v.to_string() }).unwrap_or_default();
+            let canon_row = |r: &SecretRow| serde_json::to_value(r).map(|mut v| { sort_sets(&mut v); v.to_string() }).unwrap_or_default();
+            match back.1 { Ok(s2) if canon(&s2) == canon(&secret) => {}, Ok(s2) => rep.spec_fail(&format!("roundtrip-differs:Secret:{kname}"), json!({"bytes": hex::encode(&e_secret), "before": canon(&secret).chars().take(600).collect::<String>(), "after": canon(&s2).chars().take(600).collect::<String>()}), "decode(encode v) != v"), Err(e) => rep.spec_fail(&format!("roundtrip-error:Secret:{kname}"), json!({"bytes": hex::encode(&e_secret)}), &e.to_string()) }
+            match back.2 { Ok(r2) if canon_row(&r2) == canon_row(&row) => {}, Ok(_) => rep.spec_fail(&format!("roundtrip-differs:SecretRow:{kname}"), json!({"bytes": hex::encode(&e_row)}), "decode(encode v) != v"), Err(e) => rep.spec_fail(&format!("roundtrip-error:SecretRow:{kname}"), json!({"bytes": hex::encode(&e_row)}), &e.to_string()) }
+            rep.count(&format!("secret-kind:{kname}"));
+            exercise_real_only::<SecretMeta>(&mut rep, &mut rng, "SecretMeta", &e_meta, thorough);
+            exercise_real_only::<Secret>(&mut rep, &mut rng, "Secret", &e_secret, thorough);
+            exercise_real_only::<SecretRow>(&mut rep, &mut rng, "SecretRow", &e_row, thorough);
+        }
         // vault header and contents
         {
             use sos_core::crypto::{Cipher, KeyDerivation, Seed};
@@ -376,7 +450,7 @@ pub fn run(cli: &Cli) {
     }
     flush(&mut ctx, &mut rep);
     rep.notes.push("modelled_types: DateTime CommitHash CommitProof CommitState Comparison AeadPack VaultEntry VaultCommit EventKind WriteEvent AccountEvent DeviceEvent(Revoke) FileEvent EventRecord String VaultMeta Auth Summary SharedAccess(no recipients) Header Contents Vault".into());
-    rep.notes.push("tested_only_types (real round-trip, no Lean model yet): DeviceEvent::Trust (serde_json payload)".into());
+    rep.notes.push("tested_only_types (real round-trip and malformed-input streams, no Lean model): DeviceEvent::Trust (serde_json payload), SecretMeta, Secret (all 15 kinds), SecretRow".into());
     rep.rule = format!("{n} rounds; per round one structure-aware value of every modelled type and every event variant (boundary timestamps, empty/long buffers, non-ASCII names, all flag subsets), \
         each fed as valid encoding, with trailing bytes, truncated at every offset, bit-flipped, with hostile length fields, spliced; plus kind-tag substitution over the u16 space and short random strings into every decoder; \
         non-trivial = derived from a valid encoding or a tag substitution; distinct = distinct (type, bytes)");
